@@ -62,3 +62,77 @@ package util
 //@   requires t != nil
 //@   assigns \nothing
 //@   ensures ret0 <==> ite(t.isIPNet, netContains(t.ipNet.IP, t.ipNet.Mask, ip), ipEqual(t.ip, ip))
+
+// ---------------------------------------------------------------- C37 time wheel (idle-session timer)
+// Durations are read through Duration.Seconds() and truncated to whole seconds: secs(d) = int(d.Seconds()) (uninterpreted float part)
+//@ pure durSec(d time.Duration) float64
+//@ trusted (time.Duration).Seconds
+//@   params d
+//@   pure-call
+//@   ensures ret0 == durSec(d)
+//@ pure secs(d time.Duration) int = int(durSec(d))
+// representation invariant: N distinct bucket maps; bucketIndexes[k] = i exactly when k is registered in bucket i (one registration per key)
+//@ pure twBase(tw *TimeWheel) bool = tw.bucketsNum > 0 && tw.bucketsNum <= 1<<20 && len(tw.buckets) == tw.bucketsNum && 0 <= tw.currentIndex && tw.currentIndex < tw.bucketsNum && secs(tw.tick) >= 1 && tw.bucketIndexes != nil && forall(i, 0, tw.bucketsNum, tw.buckets[i] != nil) && forall(i, 0, tw.bucketsNum, forall(j, 0, tw.bucketsNum, i != j ==> tw.buckets[i] != tw.buckets[j]))
+//@ pure twIndex(tw *TimeWheel) bool = forall(k interface{}, has(tw.bucketIndexes, k) ==> 0 <= tw.bucketIndexes[k] && tw.bucketIndexes[k] < tw.bucketsNum && has(tw.buckets[tw.bucketIndexes[k]], k) && tw.buckets[tw.bucketIndexes[k]][k] != nil && tw.buckets[tw.bucketIndexes[k]][k].round >= 0 && tw.buckets[tw.bucketIndexes[k]][k].key == k)
+//@ pure twSingle(tw *TimeWheel) bool = forall(i, 0, tw.bucketsNum, forall(k interface{}, has(tw.buckets[i], k) ==> has(tw.bucketIndexes, k) && tw.bucketIndexes[k] == i))
+// number of ticks before the tick that fires key k: distance of its bucket from the hand plus whole turns
+//@ pure ticksLeft(tw *TimeWheel, k interface{}) int = ite(tw.bucketIndexes[k] >= tw.currentIndex, tw.bucketIndexes[k] - tw.currentIndex, tw.bucketIndexes[k] - tw.currentIndex + tw.bucketsNum) + tw.buckets[tw.bucketIndexes[k]][k].round * tw.bucketsNum
+//@ property C37: NewTimeWheel, (*TimeWheel).calculateRound, (*TimeWheel).calculateIndex, (*TimeWheel).add, (*TimeWheel).remove, (*TimeWheel).handleTick
+
+//@ func (*TimeWheel).calculateRound
+//@   requires tw != nil && tw.bucketsNum > 0 && secs(tw.tick) >= 1
+//@   assigns \nothing
+//@   ensures ret0 == secs(delay) / secs(tw.tick) / tw.bucketsNum
+//@ func (*TimeWheel).calculateIndex
+//@   requires tw != nil && tw.bucketsNum > 0 && secs(tw.tick) >= 1 && 0 <= tw.currentIndex && tw.currentIndex < tw.bucketsNum && tw.bucketsNum <= 1<<20 && 0 <= secs(delay) && secs(delay) <= 1<<40
+//@   assigns \nothing
+//@   ensures ret0 == (tw.currentIndex + secs(delay) / secs(tw.tick)) % tw.bucketsNum
+
+// add (re)registers task.key: the key's single entry moves to the bucket delay/tick ticks ahead of the hand with delay/tick/N whole
+// turns, so that it fires delay/tick ticks from now, whatever was registered for the key before; other keys are untouched
+//@ func (*TimeWheel).add
+//@   requires tw != nil && task != nil && twBase(tw) && twIndex(tw) && twSingle(tw) && 0 <= secs(task.delay) && secs(task.delay) <= 1<<40
+//@   ensures case wf:     twBase(tw) && twIndex(tw) && twSingle(tw) && tw.currentIndex == old(tw.currentIndex) && tw.bucketsNum == old(tw.bucketsNum)
+//@   ensures case entry:  has(tw.bucketIndexes, task.key) && tw.buckets[tw.bucketIndexes[task.key]][task.key] == task
+//@   ensures case due:    ticksLeft(tw, task.key) == secs(task.delay) / secs(tw.tick)
+//@   ensures case onTime: ticksLeft(tw, task.key) * secs(tw.tick) >= secs(task.delay)
+//@   ensures case others: forall(k interface{}, k != task.key ==> has(tw.bucketIndexes, k) == old(has(tw.bucketIndexes, k)) && tw.bucketIndexes[k] == old(tw.bucketIndexes[k]))
+//@   ensures case othersB: forall(i, 0, tw.bucketsNum, forall(k interface{}, k != task.key ==> has(tw.buckets[i], k) == old(has(tw.buckets[i], k)) && tw.buckets[i][k] == old(tw.buckets[i][k])))
+
+// remove forgets the key: it is never fired by a later tick
+//@ func (*TimeWheel).remove
+//@   requires tw != nil && twBase(tw) && twIndex(tw) && twSingle(tw)
+//@   ensures case wf:     twBase(tw) && twIndex(tw) && twSingle(tw)
+//@   ensures case gone:   !has(tw.bucketIndexes, key) && forall(i, 0, tw.bucketsNum, !has(tw.buckets[i], key))
+//@   ensures case others: forall(k interface{}, k != key ==> has(tw.bucketIndexes, k) == old(has(tw.bucketIndexes, k)) && tw.bucketIndexes[k] == old(tw.bucketIndexes[k]))
+//@   ensures case othersB: forall(i, 0, tw.bucketsNum, forall(k interface{}, k != key ==> has(tw.buckets[i], k) == old(has(tw.buckets[i], k)) && tw.buckets[i][k] == old(tw.buckets[i][k])))
+
+// one tick: every key due now (no ticks left) is fired and forgotten, every other key is one tick closer; the hand advances
+//@ func (*TimeWheel).handleTick
+//@   requires tw != nil && twBase(tw) && twIndex(tw) && twSingle(tw)
+//@   loop 0 invariant tw.currentIndex == old(tw.currentIndex) && bucket == tw.buckets[tw.currentIndex]
+//@   loop 0 assigns bucket, tw.bucketIndexes, fieldsof(Task)
+//@   loop 0 invariant case visitedOld: forall(k interface{}, visited(k) ==> old(has(tw.buckets[tw.currentIndex], k)))
+//@   loop 0 invariant case kept:    forall(k interface{}, visited(k) && old(tw.buckets[tw.currentIndex][k].round) > 0 ==> has(bucket, k) && bucket[k] == old(tw.buckets[tw.currentIndex][k]) && bucket[k].round == old(tw.buckets[tw.currentIndex][k].round) - 1 && has(tw.bucketIndexes, k) && tw.bucketIndexes[k] == old(tw.bucketIndexes[k]))
+//@   loop 0 invariant case fired:   forall(k interface{}, visited(k) && old(tw.buckets[tw.currentIndex][k].round) <= 0 ==> !has(bucket, k) && !has(tw.bucketIndexes, k))
+//@   loop 0 invariant case pending: forall(k interface{}, !visited(k) && old(has(tw.buckets[tw.currentIndex], k)) ==> has(bucket, k) && bucket[k] == old(tw.buckets[tw.currentIndex][k]) && bucket[k].round == old(tw.buckets[tw.currentIndex][k].round) && has(tw.bucketIndexes, k) && tw.bucketIndexes[k] == old(tw.bucketIndexes[k]))
+//@   loop 0 invariant case absent:  forall(k interface{}, !old(has(tw.buckets[tw.currentIndex], k)) ==> !has(bucket, k) && has(tw.bucketIndexes, k) == old(has(tw.bucketIndexes, k)) && tw.bucketIndexes[k] == old(tw.bucketIndexes[k]))
+//@   loop 0 invariant case others:  forall(i, 0, tw.bucketsNum, forall(k interface{}, i != tw.currentIndex ==> has(tw.buckets[i], k) == old(has(tw.buckets[i], k)) && tw.buckets[i][k] == old(tw.buckets[i][k]) && (has(tw.buckets[i], k) ==> tw.buckets[i][k].round == old(tw.buckets[i][k].round))))
+//@   loop 0 invariant case keys:    forall(i, 0, tw.bucketsNum, forall(k interface{}, has(tw.buckets[i], k) ==> tw.buckets[i][k] != nil && tw.buckets[i][k].key == k))
+//@   ensures case hand:    tw.currentIndex == (old(tw.currentIndex) + 1) % tw.bucketsNum && tw.bucketsNum == old(tw.bucketsNum)
+//@   ensures case wf:      twBase(tw) && twIndex(tw) && twSingle(tw)
+//@   ensures case closer:  forall(k interface{}, old(has(tw.bucketIndexes, k)) && old(ticksLeft(tw, k)) > 0 ==> has(tw.bucketIndexes, k) && ticksLeft(tw, k) == old(ticksLeft(tw, k)) - 1)
+//@   ensures case due:     forall(k interface{}, old(has(tw.bucketIndexes, k)) && old(ticksLeft(tw, k)) <= 0 ==> !has(tw.bucketIndexes, k))
+//@   ensures case nothingNew: forall(k interface{}, !old(has(tw.bucketIndexes, k)) ==> !has(tw.bucketIndexes, k))
+
+// a new wheel is well-formed and empty
+//@ func NewTimeWheel
+//@   requires bucketsNum <= 1<<20
+//@   loop 0(i) invariant 0 <= i && i <= bucketsNum && fresh(tw) && fresh(tw.buckets) && len(tw.buckets) == bucketsNum && fresh(tw.bucketIndexes) && len(tw.bucketIndexes) == 0
+//@   loop 0(i) invariant forall(j, 0, i, tw.buckets[j] != nil && fresh(tw.buckets[j]) && len(tw.buckets[j]) == 0 && tw.buckets[j] != tw.bucketIndexes && allocated(tw.buckets[j]))
+//@   loop 0(i) invariant forall(a, 0, i, forall(b, 0, i, a != b ==> tw.buckets[a] != tw.buckets[b]))
+//@   loop 0(i) invariant forall(k interface{}, !has(tw.bucketIndexes, k)) && forall(j, 0, i, forall(k interface{}, !has(tw.buckets[j], k)))
+//@   loop 0(i) invariant tw.tick == tick && tw.bucketsNum == bucketsNum && tw.currentIndex == 0
+//@   ensures case reject: (bucketsNum <= 0 || secs(tick) < 1) <==> ret1 != nil
+//@   ensures case wf:     ret1 == nil ==> ret0 != nil && twBase(ret0) && twIndex(ret0) && twSingle(ret0)
+//@   ensures case empty:  ret1 == nil ==> forall(k interface{}, !has(ret0.bucketIndexes, k))
